@@ -204,3 +204,20 @@ Definition check_struct (c : struct_case) : N :=
     if negb (recode_same l1 l2 && recode_same s1 s2) then 100 else
     code (recode_agrees l1 o && recode_agrees s1 so) (struct_oracle s d o so o2)
   end.
+
+(* ---- Lisk32 ---- *)
+From LE Require Import Codec.Lisk32.
+Definition l32code (e : l32err) : N := match e with L32Size => 1 | L32Prefix => 2 | L32Char => 3 | L32Checksum => 4 end.
+(* (direction: true = bytes->text, input, status, error class, output, status of the inverse applied to the output,
+    its output, must_reject: input is a valid address with exactly one character replaced) *)
+Definition l32_case : Type := bool * list N * N * N * list N * N * list N * bool.
+Definition check_l32 (c : l32_case) : N :=
+  let '(b2t, inp, st, ec, out, bst, back, must_reject) := c in
+  let m := if b2t then bytes_to_lisk32 inp else lisk32_to_bytes inp in
+  code (match m with
+        | L32Ok o => (st =? 0) && Str.list_eqb o out
+        | L32Err e => (st =? 1) && (ec =? l32code e)
+        end)
+       (negb ((st =? 2) || (st =? 3)) &&
+        (if st =? 0 then (bst =? 0) && Str.list_eqb back inp else true) &&
+        (if must_reject then st =? 1 else true)).
